@@ -38,7 +38,7 @@ let out_s = function
       (String.concat " " (List.map (fun (o, d) -> obj_s o ^ (if d then "-" else "+")) l)) (b2s w)
   | OutBool b -> b2s b
   | OutPanic -> "panic"
-let parse_op (f : string list) : op =
+let rec parse_op (f : string list) : op =
   match f with
   | ["begin"; tabs] -> OBegin (parse_tabs tabs)
   | ["insert"; t; id; v; u; n; lu; ln] -> OInsert (nat t, payload id v u n lu ln)
@@ -63,6 +63,7 @@ let parse_op (f : string list) : op =
   | ["q"; s; t; "rev"] -> OQuery (src s, nat t, QRev)
   | ["q"; s; t; "gnum"] -> OQuery (src s, nat t, QGraveNum)
   | ["q"; s; t; "init"] -> OQuery (src s, nat t, QInit)
+  | "wq" :: rest -> parse_op ("q" :: rest)
   | ["changes"; iid; t] -> OChanges (nn iid, nat t)
   | ["next"; iid; s; tk] -> ONext (nn iid, src s, take tk)
   | ["resume"; iid; tk] -> OResume (nn iid, take tk)
